@@ -301,6 +301,7 @@ def run(P, R, tier):
     readout_rule(P, R)
     logkdone_rule(P, R)
     mbnorm_rule(P, R)
+    tidyonce_rule(P, R)
     loopindex_rule(P, R)
 
 
@@ -1011,3 +1012,78 @@ def loopindex_rule(P, R):
         R.ok(RULE, "census", "%d subscripts inside loops over the same vector checked" % n)
     else:
         R.anchor_missing(RULE, "only %d subscripts inside loops over the same vector found (1700 expected)" % n)
+
+
+def tidyonce_rule(P, R):
+    """The tidy_* functions run again after every block that changes the model (tidy_model: `if (new_model) ...`), on data that lives as long
+    as the instance.  A multiplicative update in place (`x /= k`, `x *= k`) of such data is applied once more by every rerun unless the
+    datum - or the container it sits in - is given a fresh value earlier in the same pass.  (tidy_species divided the -mole_balance
+    coefficients of O[18O], HD, N[15N] by 2 on every rerun: after one unrelated PHASES block the species no longer added up to the
+    reported totals.)  Census of the tidy_* functions; the re-initialisation is searched in the blocks that enclose the update."""
+    RULE = "C01.tidyonce"
+    R.rule(RULE, "tidy_* functions: a datum that is scaled in place (/=, *=) is re-initialised earlier in the same pass", minimum=2)
+
+    def norm(n):
+        return "".join(T.text(n, -40).split())
+
+    def bases(n):
+        out = []
+        n = T.strip_casts(n)
+        while T.is_node(n):
+            out.append(norm(n))
+            if n[0] == "Member":
+                n = T.strip_casts(n[3])
+            elif n[0] == "Call" and T.callee_name(n) == "operator[]" and n[4]:
+                n = T.strip_casts(n[4][0])
+            elif n[0] == "Index":
+                n = T.strip_casts(n[2])
+            elif n[0] == "Un" and n[2] == "*":
+                n = T.strip_casts(n[3])
+            elif n[0] == "Paren":
+                n = T.strip_casts(n[2])
+            else:
+                break
+        return out
+    n = 0
+    for f in sorted(P.functions.values(), key=lambda g: (g["file"], g["line"])):
+        if not f.get("body") or not f["q"].startswith("Phreeqc::tidy"):
+            continue
+
+        def visit(node, stack):
+            nonlocal n
+            if not T.is_node(node):
+                return
+            if node[0] == "Bin" and node[2] in ("/=", "*=") and T.is_node(T.strip_casts(node[3])) and T.strip_casts(node[3])[0] == "Member":
+                n += 1
+                bs = set(bases(node[3]))
+                inst = "%s@%d" % (f["q"].split("::")[-1], node[1] - f["line"])
+                fresh = None
+                for blk, idx in stack:
+                    for st in blk[2][:idx]:
+                        if not T.is_node(st):
+                            continue
+                        for t, how, line, w in T.writes(st):
+                            if (how in ("=", "addr", "ref") or how == "call:operator=") and norm(t) in bs:
+                                fresh = line
+                if fresh:
+                    R.ok(RULE, inst, "`%s`: fresh value at line %d of the same pass" % (T.text(node)[:50], fresh))
+                else:
+                    R.violation(RULE, inst, "`%s` scales data of the instance in place and nothing in the enclosing blocks gives it a fresh value first: every rerun of %s "
+                                "(after any later block that changes the model) applies the factor once more" % (T.text(node)[:60], f["q"].split("::")[-1]),
+                                file=f["file"], line=node[1], function=f["q"])
+                return
+            if node[0] == "Compound":
+                for idx, st in enumerate(node[2]):
+                    visit(st, stack + [(node, idx)])
+                return
+            for c in node[2:]:
+                if isinstance(c, list):
+                    if c and isinstance(c[0], str):
+                        visit(c, stack)
+                    else:
+                        for cc in c:
+                            if isinstance(cc, list) and cc and isinstance(cc[0], str):
+                                visit(cc, stack)
+        visit(f["body"], [])
+    if n < 2:
+        R.anchor_missing(RULE, "only %d in-place multiplicative updates found in the tidy_* functions" % n)
